@@ -51,7 +51,20 @@ func c04Parse(c *core.Ctx, s *gen.Spec) (r *rules.NetworkRule, text string, ok b
 		}
 	}
 	text = s.Render(c.Rng)
-	r, err := rules.NewNetworkRule(text, 1)
+	var err error
+	if c.Rng.Intn(2) == 0 {
+		// The generic constructor (what scanners and storages use) must give
+		// the same rule as the specific one.
+		var gr rules.Rule
+		gr, err = rules.NewRule(text, 1)
+		if nr, isNet := gr.(*rules.NetworkRule); isNet && err == nil && nr != nil {
+			r = nr
+			c.Event("rules_parsed_through_NewRule", 1)
+		}
+	}
+	if r == nil {
+		r, err = rules.NewNetworkRule(text, 1)
+	}
 	if err != nil {
 		c.Inconclusive("rule-rejected-by-parser")
 
